@@ -208,7 +208,7 @@ impl Prop for C04 {
                     let len = (en.e.min(ch.size) - en.s.min(ch.size)) as u64;
                     let p = en.s as u64 + ((*frac as u64 * len) >> 16);
                     let s = (p as u32).min(ch.size.saturating_sub(1));
-                    (ci, s, (s + *width as u32).min(ch.size))
+                    (ci, s, s.saturating_add(*width as u32).min(ch.size))
                 }
                 QOp::Repeat(k) => {
                     if resolved.is_empty() {
